@@ -94,6 +94,8 @@ pub struct Reflex {
     pub deliver_with_consume_ok: Vec<usize>,
     // ---- state
     pub seq: HashMap<u16, u64>,
+    /// per channel: the queue declared last (what a passive declare of "" refers to)
+    pub last_declared: HashMap<u16, String>,
     pub held: Vec<Held>,
     pub confirm: HashMap<u16, u64>,
     pub pub_remaining: HashMap<u16, Option<u64>>,
@@ -140,6 +142,7 @@ impl Default for Reflex {
             per_channel_tags: false,
             deliver_with_consume_ok: Vec::new(),
             seq: HashMap::new(),
+            last_declared: HashMap::new(),
             held: Vec::new(),
             confirm: HashMap::new(),
             pub_remaining: HashMap::new(),
@@ -577,11 +580,16 @@ impl Reflex {
                 if !d.nowait {
                     let seq = self.next_seq(ch);
                     let v = reply_val(ch, seq);
-                    let name = if d.queue.is_empty() {
+                    // the empty name: a fresh server-named queue, or (passive) "the queue
+                    // this channel declared last"
+                    let name = if d.queue.is_empty() && d.passive {
+                        self.last_declared.get(&ch).cloned().unwrap_or_default()
+                    } else if d.queue.is_empty() {
                         gen_queue_name(ch, seq)
                     } else {
                         d.queue.clone()
                     };
+                    self.last_declared.insert(ch, name.clone());
                     let fr = vec![enc_method(
                         ch,
                         AMQPClass::Queue(Q::DeclareOk(queue::DeclareOk {
